@@ -384,6 +384,51 @@ def corpus_transport_convergence(ctx):
     return probs
 
 
+def corpus_scan_requests(ctx):
+    """"every import request is completed unless its file is still locked": recursive (scan) and single-file import requests
+    for trees of every shape - files, an empty directory, directories holding only directories, only dot-files, a path that
+    does not exist - on a node of the real daemon; four fault-free passes.  Nothing is locked, so nothing may stay pending."""
+    import shutil
+    import world as worldmod
+    probs = []
+    with envmod.Env() as e:
+        w = worldmod.World(e)
+        db = w.db
+        for m in (db.StorageTransferAction, db.ArchiveFileCopyRequest, db.ArchiveFileImportRequest, db.ArchiveFileCopy,
+                  db.ArchiveFile, db.ArchiveAcq, db.StorageNode, db.StorageGroup):
+            m.delete().execute()
+        shutil.rmtree(os.path.join(e.tmp, "roots"), ignore_errors=True)
+        n = w.node("n", w.group("g"))
+        root = n.root
+        for d in ("full/sub", "empty", "onlydirs/a/b", "dots"):
+            os.makedirs(os.path.join(root, d), exist_ok=True)
+        for rel, data in (("full/x.dat", b"x"), ("full/sub/y.dat", b"yy"), ("dots/.hidden", b"h")):
+            with open(os.path.join(root, rel), "wb") as fh:
+                fh.write(data)
+        import verif_idext
+        verif_idext.MODE[:] = ["first", 1]
+        reqs = [("full", True), ("empty", True), ("onlydirs", True), ("onlydirs/a", True), ("dots", True), ("nowhere", True),
+                ("full/x.dat", False), ("nowhere/z.dat", False), ("empty", False)]
+        for path, rec in reqs:
+            db.ArchiveFileImportRequest.create(node=n, path=path, recurse=rec, register=True)
+        os.environ["PATH"] = os.path.join(wharness.FAKE, "none")
+        try:
+            d = worldmod.Daemon(e, "h1")
+            for _ in range(4):
+                d.iterate()
+                d.drain()
+        finally:
+            os.environ["PATH"] = "/usr/local/bin:/usr/bin:/bin"
+        for r in db.ArchiveFileImportRequest.select():
+            ctx.case(("scan-request", r.path, bool(r.recurse)), nontrivial=True)
+            ctx.count(f"scan-requests:{'completed' if r.completed else 'pending'}")
+            if not r.completed:
+                probs.append(f"import request for {r.path!r} (recurse={bool(r.recurse)}) is still pending after four fault-free passes although "
+                             f"nothing on the node is locked (tree: files under full/, an empty directory, directories of directories, a "
+                             f"dot-file, a missing path)")
+    return probs
+
+
 def one_history(ctx, e, hseed, hsm=None):
     """a random history, then fault-free rounds to a fixed point; returns (log, rounds, [(key, problem)])"""
     import random
@@ -439,6 +484,8 @@ def run(ctx):
     stage_transport(ctx, 150 if ctx.quick() else 4000)
     for p, lg in corpus_transport_convergence(ctx):
         ctx.violation("transport:not-converged", p, {"kind": "corpus", "name": "transport convergence", "steps": lg})
+    for p in corpus_scan_requests(ctx):
+        ctx.violation("import-request-pending", p, {"kind": "corpus", "name": "scan requests"})
     for p in corpus_modify_then_pull(ctx):
         ctx.violation("modify-md5-nulls-size", p, {"kind": "corpus", "name": "file modify --md5 then pull"})
     with envmod.Env() as e:
@@ -469,6 +516,8 @@ def replay(ctx, path):
         with envmod.Env() as e:
             if "transport" in d.get("name", ""):
                 probs = [p for p, _ in corpus_transport_convergence(ctx)]
+            elif "scan" in d.get("name", ""):
+                probs = corpus_scan_requests(ctx)
             else:
                 probs = corpus_modify_then_pull(ctx) if "modify" in d.get("name", "") else corpus_shadowed(e)
         for p in probs:
